@@ -96,15 +96,15 @@ Mapped(cm, code) == \E i \in 1..Len(cm.entries) : Covers(cm.entries[i], code)
 \* the generator keeps entries disjoint, so the covering entry is unique
 LookupCode(cm, code) == LET i == CHOOSE j \in 1..Len(cm.entries) : Covers(cm.entries[j], code) IN Target(cm.entries[i], code)
 
-\* canonical composition for the few combining pairs the generator uses; every
-\* other generated code point is NFC-inert
+\* canonical composition (NFC) over the code points the generators use: every pair (starter, combining mark) of that
+\* alphabet - and of the characters such pairs compose to - that has a precomposed form (table computed from the Unicode
+\* data by tools, all marks of the alphabet have combining class 230, so there is no reordering and a mark composes
+\* only with the character directly before it); every other generated code point is NFC-inert. Composition runs over
+\* the WHOLE decoded string: a mark that is the target of its own code composes with the letter of the code before it.
+NfcPairs == { <<65, 769, 193>>, <<65, 770, 194>>, <<65, 771, 195>>, <<65, 776, 196>>, <<65, 777, 7842>>, <<65, 778, 197>>, <<67, 769, 262>>, <<67, 770, 264>>, <<101, 769, 233>>, <<101, 770, 234>>, <<101, 771, 7869>>, <<101, 776, 235>>, <<101, 777, 7867>>, <<103, 769, 501>>, <<103, 770, 285>>, <<105, 769, 237>>, <<105, 770, 238>>, <<105, 771, 297>>, <<105, 776, 239>>, <<105, 777, 7881>>, <<106, 770, 309>>, <<107, 769, 7729>>, <<117, 769, 250>>, <<117, 770, 251>>, <<117, 771, 361>>, <<117, 776, 252>>, <<117, 777, 7911>>, <<117, 778, 367>>, <<194, 769, 7844>>, <<194, 771, 7850>>, <<194, 777, 7848>>, <<197, 769, 506>>, <<234, 769, 7871>>, <<234, 771, 7877>>, <<234, 777, 7875>>, <<239, 769, 7727>>, <<252, 769, 472>>, <<361, 769, 7801>> }
 Compose(cps) ==
-    LET step(acc, c) == IF acc # <<>> /\ c = 769 /\ acc[Len(acc)] = 101 THEN [acc EXCEPT ![Len(acc)] = 233]       \* e + acute
-                        ELSE IF acc # <<>> /\ c = 770 /\ acc[Len(acc)] = 101 THEN [acc EXCEPT ![Len(acc)] = 234]  \* e + circumflex
-                        ELSE IF acc # <<>> /\ c = 771 /\ acc[Len(acc)] = 101 THEN [acc EXCEPT ![Len(acc)] = 7869] \* e + tilde
-                        ELSE IF acc # <<>> /\ c = 776 /\ acc[Len(acc)] = 117 THEN [acc EXCEPT ![Len(acc)] = 252]  \* u + diaeresis
-                        ELSE IF acc # <<>> /\ c = 777 /\ acc[Len(acc)] = 117 THEN [acc EXCEPT ![Len(acc)] = 7911] \* u + hook above
-                        ELSE IF acc # <<>> /\ c = 778 /\ acc[Len(acc)] = 117 THEN [acc EXCEPT ![Len(acc)] = 367]  \* u + ring
+    LET step(acc, c) == IF acc # <<>> /\ \E p \in NfcPairs : p[1] = acc[Len(acc)] /\ p[2] = c
+                        THEN [acc EXCEPT ![Len(acc)] = (CHOOSE p \in NfcPairs : p[1] = acc[Len(acc)] /\ p[2] = c)[3]]
                         ELSE Append(acc, c)
     IN FoldLeft(step, <<>>, cps)
 
